@@ -36,9 +36,13 @@ def _load_keys(
 
 
 def _serialized(func):
-    """Run a cached getter (SELECT, then the insertion into the cache) or an update (UPDATE, then the
-    invalidation of the cache) without interleaving with the others. Otherwise a row selected before a
-    concurrent UPDATE can be inserted into the cache after the update has invalidated it.
+    """Run the body of a cached getter (its SELECT) or an update (UPDATE, then the invalidation of the
+    cache) without interleaving with the others. Otherwise a row selected before a concurrent UPDATE can
+    be inserted into the cache after the update has invalidated it.
+
+    The insertion into the cache is done by the ``cached`` wrapper after this function has returned,
+    i.e. not under the lock. That is safe only because cachebox (6.2.0) has no suspension point between
+    ``await func(...)`` and the insertion, so no update can run in between.
     """
 
     @functools.wraps(func)
@@ -500,7 +504,6 @@ class SqliteDatabase(CachedDatabase):
                 return _load_keys(dict(await cursor.fetchone()))
 
     @cached(cache=lambda self: self.token_cache, postprocess=postprocess_deepcopy)
-    @_serialized
     async def get_token(self, token_id: int) -> MutableMapping[str, Any]:
         async with self.connection as db:
             async with db.execute(
